@@ -322,7 +322,12 @@ get_line_locked(kdump_ctx_t *ctx, const char *key, char **val)
 	if (status != KDUMP_OK)
 		return status;
 
-	attr = lookup_dir_attr(ctx->dict, base, key, strlen(key));
+	/* No VMCOREINFO key starts with a dot (such rows are refused), so
+	 * do not let lookup_dir_attr() strip it as its "no fallback" mark.
+	 */
+	attr = *key != '.'
+		? lookup_dir_attr(ctx->dict, base, key, strlen(key))
+		: NULL;
 	if (!attr || attr->template->type != KDUMP_STRING)
 		return set_error(ctx, KDUMP_ERR_NODATA,
 				 "No such VMCOREINFO line");
@@ -374,7 +379,10 @@ kdump_vmcoreinfo_symbol(kdump_ctx_t *ctx, const char *symname,
 	if (ret != KDUMP_OK)
 		goto out;
 
-	attr = lookup_dir_attr(ctx->dict, base, symname, strlen(symname));
+	/* See get_line_locked() for the leading dot. */
+	attr = *symname != '.'
+		? lookup_dir_attr(ctx->dict, base, symname, strlen(symname))
+		: NULL;
 	if (!attr || attr->template->type != KDUMP_ADDRESS) {
 		ret = set_error(ctx, KDUMP_ERR_NODATA, "Symbol not found");
 		goto out;
